@@ -99,7 +99,8 @@ def classify_fill(c, solvent, value, base):
         return 'infeasible', 'non_positive', 0.0
     cur = R.measure(c.contents, base)
     pb = R.per(solvent, base)
-    rq = H1.request_quantum(base, c.contents) + K * H1.storage_noise_in(c.contents, base)
+    # the fill requirement is honoured to one quantum q in *base* units (like mass requests)
+    rq = H1.request_quantum(base, c.contents) + K * H1.storage_noise_in(c.contents, base) + cf.q
     need = value - cur
     if need < -(1e-6 * cur + K * rq):
         return 'infeasible', 'below_current', 0.0
@@ -114,7 +115,7 @@ def classify_fill(c, solvent, value, base):
     if v_after > cap * (1 + 1e-6) + vq:
         return 'infeasible', 'capacity', x
     if v_after > cap * (1 - 1e-6) - vq:
-        if abs(v_after - cap) <= 1e-12 * cap + vq:
+        if base == 'L' and abs(v_after - cap) <= 1e-12 * cap + vq:
             return 'exact', 'capacity', x
         return 'boundary', 'capacity', x
     return 'feasible', '', x
@@ -135,9 +136,20 @@ def check_fill(c, solvent, quantity, result, exc, where):
     has_enz = any(R.is_enzyme(s) and a > 0 for s, a in c.contents.items())
     if exc is not None:
         et = type(exc).__name__
-        if verdict in ('feasible', 'exact') or (expect and expect.get('must') == 'accept'):
+        if verdict == 'feasible' or (expect and expect.get('must') == 'accept'):
             mech = (f'C03:exact_capacity_fill_refused:{et}' if verdict == 'exact'
                     else f'C03:feasible_fill_refused:{base}:{et}')
+            if verdict == 'exact' and c.max_volume >= 1e5 and et == 'ValueError':
+                from copy import deepcopy
+                try:
+                    with M.oracle():
+                        c2 = deepcopy(c)
+                        c2.max_volume = c.max_volume * (1 + 1e-9)
+                        c2.fill_to(solvent, quantity)
+                    mech = 'C03:exact_capacity_fill_refused:large_volume_float_noise'
+                except Exception:
+                    mech = f'C03:near_capacity_fill_refused_even_with_margin:{et}'
+
             M.violate(['C03', 'C11'], 'FEAS', mech,
                       {'quantity': quantity, 'solvent': solvent.name, 'verdict': verdict,
                        'exc': repr(exc)[:300], 'container': F.snap_contents(c)})
@@ -155,6 +167,8 @@ def check_fill(c, solvent, quantity, result, exc, where):
     M.count('FILL')
     total = R.measure(result.contents, base)
     tol = K * (H1.storage_noise_in(result.contents, base) + H1.request_quantum(base, result.contents)) + 1e-9 * abs(value)
+    if verdict == 'boundary' and reason == 'at_current':
+        tol += 1e-6 * abs(value) + K * cf.q      # a target within the quanta of the current quantity: no-op allowed
     if not M.ratio('FILL', total, value, tol):
         M.violate(['C11'], 'FILL', f'C11:fill_total_ne_target:{base}' + (':enzymes_present' if has_enz else ''),
                   {'target': value, 'unit': base, 'result_total': total, 'tol': tol, 'quantity': quantity,
